@@ -107,6 +107,9 @@ func (p prop) RunCase(c *fw.Ctx, rng *fw.RNG, batch, i int) {
 			c.Seen(fw.Mix(fw.HashString(schemagen.Describe(ts)+t.Name), tv.Hash()), true)
 			// each engine against the reference (C08 monitor on generated code), then lock-step
 			typedmon.CheckViews(c, gen, ts, t, tv, rng)
+			if k%3 == 0 {
+				typedmon.CheckWrongKind(c, gen, ts, t, tv)
+			}
 			rv, rerr := ts.ReprOf(t, tv)
 			if rerr != nil {
 				continue
